@@ -428,6 +428,8 @@ def Err.text : Err → Option Bytes
   | .arity t => some t
   | .body e => e.text
 
+deriving instance DecidableEq for Except
+
 abbrev Res := Except Err Cmd
 abbrev BRes := Except BErr Cmd
 
